@@ -45,11 +45,29 @@ pub enum Tier {
 
 static PHASE: Mutex<&'static str> = Mutex::new("idle");
 /// (plan of the run in progress as JSON, when it started, class expected by a replay)
-static WATCH: Mutex<Option<(String, Instant, String)>> = Mutex::new(None);
+static WATCH: Mutex<Option<(String, Instant, String, f64)>> = Mutex::new(None);
 
 fn hang_limit() -> std::time::Duration {
     let s: u64 = std::env::var("VERIF_HANG_LIMIT_S").ok().and_then(|v| v.parse().ok()).unwrap_or(900);
     std::time::Duration::from_secs(s)
+}
+
+/// CPU seconds (user + system) this process has used so far.
+fn cpu_seconds() -> f64 {
+    let stat = std::fs::read_to_string("/proc/self/stat").unwrap_or_default();
+    // fields after the parenthesised command name; utime and stime are fields 14 and 15
+    let rest = stat.rsplit(')').next().unwrap_or("");
+    let f: Vec<&str> = rest.split_whitespace().collect();
+    let ticks = |i: usize| f.get(i).and_then(|x| x.parse::<f64>().ok()).unwrap_or(0.0);
+    (ticks(11) + ticks(12)) / 100.0
+}
+
+/// A run counts as hung when it has burnt more CPU than the limit (a spinning loop) or has
+/// not returned for four times the limit in wall time (a blocked one); a merely starved
+/// process reaches neither quickly.
+fn run_is_stuck(start_wall: Instant, start_cpu: f64) -> bool {
+    let limit = hang_limit();
+    cpu_seconds() - start_cpu > limit.as_secs_f64() || start_wall.elapsed() > limit * 4 || (limit.as_secs() == 0)
 }
 
 /// Liveness watchdog (wall clock, only as a very generous bound): a run that does not
@@ -60,7 +78,7 @@ fn start_watchdog(prop: String, replaying: bool) {
         let stuck = {
             let w = WATCH.lock().unwrap();
             match &*w {
-                Some((plan, start, expect)) if start.elapsed() > hang_limit() => Some((plan.clone(), expect.clone())),
+                Some((plan, start, expect, cpu0)) if run_is_stuck(*start, *cpu0) => Some((plan.clone(), expect.clone())),
                 _ => None,
             }
         };
@@ -375,7 +393,7 @@ fn main() {
                     break;
                 }
                 let plan = gen_plan(&prop, seed, index, tier);
-                *WATCH.lock().unwrap() = Some((serde_json::to_string(&plan).unwrap(), Instant::now(), String::new()));
+                *WATCH.lock().unwrap() = Some((serde_json::to_string(&plan).unwrap(), Instant::now(), String::new(), cpu_seconds()));
                 let o = exec(&plan);
                 *WATCH.lock().unwrap() = None;
                 sum.runs += 1;
@@ -445,7 +463,7 @@ fn main() {
                 std::process::exit(2)
             });
             start_watchdog(rf.property.clone(), true);
-            *WATCH.lock().unwrap() = Some((serde_json::to_string(&rf.plan).unwrap(), Instant::now(), rf.class.clone()));
+            *WATCH.lock().unwrap() = Some((serde_json::to_string(&rf.plan).unwrap(), Instant::now(), rf.class.clone(), cpu_seconds()));
             let o = exec(&rf.plan);
             *WATCH.lock().unwrap() = None;
             match o.violation {
